@@ -11,7 +11,10 @@ Stage "pump" (one evaluation = one fresh environment):
   faults  none | addon1 hook raises (swallowed / propagating AddonManager) | addon2 hook raises (both modes) | session
           http_message_handler subscriber raises | region subscriber raises | message_logger.log_http_response raises |
           asset_repo.try_serve_asset raises | session_manager.resolve_cap raises ; a malformed body is the LLSD / XML-RPC
-          parsing fault; subscriber that *takes* the flow (what MessageHandler.wait_for does) and releases it one pump later
+          parsing fault; subscriber that *takes* the flow and releases it one pump later; real ``wait_for()`` and
+          ``subscribe_async()`` waiters on the session-level and on the region-level http_message_handler -- with the default
+          take mode they own the flow until they resume() it one pump later, with take=False they must not delay the hand-back
+          (every response flow x 8 waiter kinds x {ignore, take_later1, handled})
   addon behaviours  ignore | take | take+resume inside the hook | take, resume after 1 / 2 further pumps | resume twice inside
           the hook | take, resume later, resume again | inject a response | rewrite the URL | clear can_stream | return True |
           resume then preempt later | preempt before any resume | take, then the flow's region is dropped from the session /
@@ -33,7 +36,9 @@ Stage "state": HippoHTTPFlow.from_state(flow.get_state(), session_manager), dire
   x 2 sessions x 2 regions x flags x every subset of {rewritten URL, injected response, can_stream cleared}: cap name, type,
   base URL, *identity* of session and region, request_injected, response_injected, can_stream, from_browser, URL, response
   (status, headers, body) are unchanged; plus the two-phase check through the real pumps: the cap data an addon sees in
-  handle_http_response is the cap data resolved in the request phase (same objects).
+  handle_http_response is the cap data resolved in the request phase (same objects), and the flow handed back after the
+  request leg *and* after the response leg carries the cap name / type / base URL / session id / region address the harness'
+  own cap table prescribes -- for viewer, browser and X-Hippo-Injected (the proxy's own) requests alike.
 Stage "wrapper": requests to GetMesh2 / GetTexture / ViewerAsset ``...ProxyWrapper`` URLs x {redirect strategy, after a direct
   asset-server request switched the manager to the URL-rewrite strategy} x can_stream {kept, cleared by either addon} x
   {addon1, addon2 rewrites} x {path+query rewritten on the wrapper host, whole URL rewritten}: whichever form the hand-back
@@ -263,6 +268,62 @@ class Subscriber:
         self.board.append((self.name, "resumed-again" if already else "resumed"))
 
 
+class Waiter:
+    """An owner that acquires the flow the other public way: ``wait_for()`` / ``subscribe_async()`` on a session- or
+    region-level http_message_handler (default: the waiter takes the flow; ``take=False``: a pure observer)."""
+
+    def __init__(self, name: str, board: List[Tuple[str, str]], handler, loop, api: str, take: Optional[bool], fid: str):
+        self.name, self.board, self.loop, self.api, self.take = name, board, loop, api, take
+        self.held, self.took, self.released, self.received, self.log = None, False, False, False, []
+        pred = (lambda f, _fid=fid: f.id == _fid)
+        if api == "wait_for":
+            self.fut = handler.wait_for(("*",), predicate=pred, take=take)
+        else:
+            self.cm = handler.subscribe_async(("*",), predicate=pred, take=take)
+            self.get = self.cm.__enter__()
+
+    def after_pump(self):
+        """Did the handler dispatch the flow to this waiter? With the default take mode the waiter now owns it."""
+        flow = None
+        if self.api == "wait_for":
+            if self.fut.done() and not self.fut.cancelled() and self.fut.exception() is None:
+                flow = self.fut.result()
+        else:
+            try:
+                flow = self.loop.run_coro(self.get())
+            except TimeoutError:
+                flow = None
+            self.cm.__exit__(None, None, None)
+        if flow is None:
+            return
+        self.received, self.held = True, flow
+        self.log.append("received")
+        if self.take is not False:
+            self.took = True
+            self.log.append("took")
+            self.board.append((self.name, "took"))
+
+    def release(self, label="resumed"):
+        try:
+            self.held.resume()
+        except AssertionError:
+            self.log.append(label + "-refused")
+            return
+        already = any(a == "resumed" for _n, a in self.board)
+        self.released = True
+        self.log.append(label)
+        self.board.append((self.name, "resumed-again" if already else "resumed"))
+
+
+#: (level, api, take) of the waiter kinds; names are usable in a case's fault tuple
+WAITERS = {
+    "sess_wait": ("session", "wait_for", None), "reg_wait": ("region", "wait_for", None),
+    "sess_async": ("session", "subscribe_async", None), "reg_async": ("region", "subscribe_async", None),
+    "sess_wait_notake": ("session", "wait_for", False), "reg_wait_notake": ("region", "wait_for", False),
+    "sess_async_notake": ("session", "subscribe_async", False), "reg_async_notake": ("region", "subscribe_async", False),
+}
+
+
 class FaultyLogger(BaseMessageLogger):
     def __init__(self):
         self.paused = False
@@ -308,6 +369,7 @@ class World:
                 rs = self.reg_subs[(si, ri)] = Subscriber(f"region{si}.{ri}", self.board)
                 region.http_message_handler.subscribe("*", rs)
         self.resolve_fail_for: Optional[str] = None
+        self.waiters: List[Waiter] = []
         self.asset_fail = False
         self.fired: Dict[str, int] = {}
 
@@ -385,6 +447,11 @@ def _install_faults(w: World, fid: str, event: str, faults: Tuple[str, ...], si:
             w.sess_subs[si].target, w.sess_subs[si].mode = fid, "take"
         elif f == "reg_sub_take":
             w.reg_subs[(si, ri)].target, w.reg_subs[(si, ri)].mode = fid, "take"
+        elif f in WAITERS:
+            level, api, take = WAITERS[f]
+            sess = env.sessions[si]
+            handler = sess.http_message_handler if level == "session" else sess.regions[ri].http_message_handler
+            w.waiters.append(Waiter(f, w.board, handler, env.loop, api, take, fid))
         elif f == "logger":
             w.logger.fail_for = fid
         elif f == "asset_repo":
@@ -518,6 +585,8 @@ def evaluate_pump_case(case) -> Tuple[List[Dict[str, Any]], Any, bool]:
         exc = env.pump()
         if q.n_got != got_before + 1 or not q.empty():
             bad("queue-consumption", f"pump consumed {q.n_got - got_before} events, {q.qsize()} left")
+        for wt in w.waiters:
+            wt.after_pump()
         was_owned = owned()
         account("pump", 0 if was_owned else 1)
         if any(a == "resumed-again" for _n, a in w.board):
@@ -570,6 +639,11 @@ def evaluate_pump_case(case) -> Tuple[List[Dict[str, Any]], Any, bool]:
                     n_pre = len([i for i in account(f"preempt by {a.name}", 0) if i[0] == "preempt" and i[1] == fid])
                     if "preempted" in a.log and n_pre != 1:
                         bad("preempt-item", f"preempt() queued {n_pre} preempt items")
+            for wt in w.waiters:
+                if k == 1 and wt.took and not wt.released:
+                    was = owned()
+                    wt.release()
+                    account(f"release by waiter {wt.name}", 1 if (wt.released and was) else 0)
             for sub in (w.sess_subs[si], w.reg_subs[(si, ri)]):
                 if sub.mode == "take" and k == 1 and sub.took and not sub.released:
                     was = owned()
@@ -601,7 +675,8 @@ def evaluate_pump_case(case) -> Tuple[List[Dict[str, Any]], Any, bool]:
                 if "nostream" in mods_before and got.metadata.get("can_stream") is not False:
                     bad("transfer-flag-can_stream", f"addon cleared can_stream, callback state carries {got.metadata.get('can_stream')!r}")
         fired = sorted(k for k, v in w.fired.items() if v) + [a.name for a in (w.a1, w.a2) if "raised" in a.log] + \
-            [s.name for s in (w.sess_subs[si], w.reg_subs[(si, ri)]) if s.log] + (["logger"] if w.logger.fired else [])
+            [s.name for s in (w.sess_subs[si], w.reg_subs[(si, ri)]) if s.log] + (["logger"] if w.logger.fired else []) + \
+            [wt.name + ":" + "+".join(wt.log) for wt in w.waiters if wt.log]
         acted = [a.log for a in (w.a1, w.a2)]
         outcome = (event, kind, type(exc).__name__ if exc else None, n_cb, was_owned, tuple(fired),
                    tuple(tuple(x) for x in acted), flow.response.status_code if flow.response else None)
@@ -764,6 +839,49 @@ def evaluate_state_case(case) -> Tuple[List[Dict[str, Any]], Any, bool]:
         env.close()
 
 
+def expected_routing(w: World, kind: str, si: int, ri: int, flag: str, leg: str):
+    """(cap name, type, base url, session id, region addr) the callback state must carry -- from the harness' own cap table.
+    Returns None where nothing is asserted."""
+    sid, addr = str(session_uuid(si, 1)), str(REGION_ADDRS[ri])
+    table = {
+        "normal": ("FooCap", "NORMAL", cap_url(si, ri, "FooCap"), sid, addr),
+        "seed": ("Seed", "NORMAL", seed_url(si, ri), sid, addr),
+        "eq": ("EventQueueGet", "NORMAL", cap_url(si, ri, "EventQueueGet"), sid, addr),
+        "upload": ("NewFileAgentInventory", "NORMAL", cap_url(si, ri, "NewFileAgentInventory"), sid, addr),
+        "tempuploader": ("NewFileAgentInventoryUploader", "TEMPORARY", cap_url(si, ri, "tmp-uploader"), sid, addr),
+        "proxyonly": ("HippoProxyOnly", "PROXY_ONLY", w.urls[(si, ri, "proxyonly")], sid, addr),
+        "wrapper": ("GetMesh2ProxyWrapper", "WRAPPER", w.urls[(si, ri, "wrapper")], sid, addr),
+        # asset-server caps are deliberately not tied to a session / region (documented in Session.resolve_cap)
+        "asset": ("GetMesh2", "NORMAL", ASSET_URL, None, None),
+        "none": (None, None, None, None, None),
+    }
+    if kind in table:
+        return table[kind]
+    if flag != "plain":
+        return None      # login sniffing / bridge detection are defined for plain viewer traffic only
+    if kind == "login":
+        return ("LoginRequest", "NORMAL", None, None if leg == "request" else str(session_uuid(7, 1)), None)
+    if kind == "bridge":
+        return (None, None, None, None, None) if leg == "request" else \
+            ("FirestormBridge", "NORMAL", None, sid, str(REGION_ADDRS[0]))
+    return None
+
+
+def check_routing(viol, cb_item, exp, what: str, leg: str):
+    if exp is None:
+        return
+    ser = HTTPFlow.from_state(pickle.loads(pickle.dumps(cb_item[2]))).metadata.get("cap_data_ser")
+    if exp[0] is None:
+        got = None if not ser else tuple(ser)
+        ok = not ser or ser.cap_name is None
+    else:
+        got = (ser.cap_name, ser.type, ser.base_url, ser.session_id, ser.region_addr) if ser is not None else None
+        ok = got == exp
+    if not ok:
+        viol.append({"clause": f"routing-metadata-{leg}-leg", "site": "callback state cap_data_ser",
+                     "detail": f"{what}: the flow handed back after the {leg} leg must carry {exp!r}, it carries {got!r}"})
+
+
 def evaluate_twophase_case(case) -> Tuple[List[Dict[str, Any]], Any, bool]:
     """case = ("twophase", kind, si, ri, flag): request pump then response pump; addon1 only observes."""
     _, kind, si, ri, flag = case
@@ -780,13 +898,21 @@ def evaluate_twophase_case(case) -> Tuple[List[Dict[str, Any]], Any, bool]:
         if len(cbs) != 1:
             return [{"clause": "handback-immediate", "site": "pump_proxy_event[request]:twophase",
                      "detail": f"{kind}: {len(cbs)} callbacks"}], ("twophase-broken",), False
+        what = f"{kind}/s{si}r{ri}/{flag}"
+        check_routing(viol, cbs[0], expected_routing(w, kind, si, ri, flag, "request"), what, "request")
         env.apply_callback(flow, cbs[0])
         if flow.response is None:
             st, rc, rh = w.response_parts(kind, si, ri, "valid", 200)
             env.set_response(flow, st, rc, rh)
         if not env.mitm_response(flow):
-            return viol, ("twophase", kind, "no-response-event"), False
+            return viol, ("twophase", kind, "no-response-event"), bool(viol)
         env.pump()
+        cbs2 = [i for i in env.take_to_proxy() if i[0] == "callback"]
+        if len(cbs2) != 1:
+            viol.append({"clause": "handback-immediate", "site": "pump_proxy_event[response]:twophase",
+                         "detail": f"{what}: {len(cbs2)} callbacks"})
+        else:
+            check_routing(viol, cbs2[0], expected_routing(w, kind, si, ri, flag, "response"), what, "response")
         req_seen = w.a1.seen_caps.get(("tp-flow", "request"))
         resp_seen = w.a1.seen_caps.get(("tp-flow", "response"))
         if req_seen is not None and resp_seen is not None and kind not in ("login", "bridge"):
@@ -801,7 +927,7 @@ def evaluate_twophase_case(case) -> Tuple[List[Dict[str, Any]], Any, bool]:
                 viol.append({"clause": "state-before-transfer", "site": "SessionManager.resolve_cap",
                              "detail": f"{kind}/s{si}r{ri}: resolved to {req_seen[3]!r} / {req_seen[4]!r}"})
         return viol, ("twophase", kind, si, ri, flag, req_seen is not None, resp_seen is not None,
-                      resp_seen[0] if resp_seen else None), resp_seen is not None
+                      resp_seen[0] if resp_seen else None), True
     finally:
         env.close()
 
@@ -950,6 +1076,13 @@ def cases_for(tier: str):
         for fl in core:
             for fa in single[1:]:
                 cases.append(("pump",) + fl + (fa, b, "ignore"))
+    # stage 1c: owners / observers that get the flow through wait_for() / subscribe_async() on the session / region handler
+    for fl in flows:
+        if fl[0] != "response":
+            continue
+        for wt in WAITERS:
+            for b in ("ignore", "take_later1", "handled"):
+                cases.append(("pump",) + fl + ((wt,), b, "ignore"))
     # stage 2a: pairs of faults x {ignore, deferred release}
     for fl in wide:
         for fa in pairs:
